@@ -53,8 +53,10 @@ impl rand::TryRng for ScriptedRng {
 
 pub type Selection = (Vec<SocketAddr>, Option<SocketAddr>, Option<SocketAddr>);
 
-/// Runs the real selection on a fresh thread whose hash keys depend only on `rng_seed`, so the
-/// result is a function of (seed, mode, pools) and not of what ran earlier on the calling thread.
+/// Runs the real selection. The iteration order of the `HashSet` pools depends on the calling
+/// thread's hash keys; every run executes on a fresh thread whose keys derive from the run seed
+/// and replay re-executes the same sequence of steps on an equally seeded thread, so the result
+/// is a function of (run seed, command list).
 pub fn run_selection(
     rng_seed: u64,
     mode: u8,
@@ -63,16 +65,10 @@ pub fn run_selection(
     dead: &[SocketAddr],
     seeds: &[SocketAddr],
 ) -> Result<Selection, String> {
-    let (peers, live, dead, seeds) = (peers.to_vec(), live.to_vec(), dead.to_vec(), seeds.to_vec());
-    std::thread::spawn(move || {
-        crate::shim::seed_thread(rng_seed);
-        let mut rng = ScriptedRng { inner: Rng::new(rng_seed), mode, draws: 0 };
-        let (p, l, d, s): (HashSet<_>, HashSet<_>, HashSet<_>, HashSet<_>) =
-            (peers.into_iter().collect(), live.into_iter().collect(), dead.into_iter().collect(), seeds.into_iter().collect());
-        guarded(|| chitchat::verif::select_nodes_for_gossip(&mut rng, p, l, d, s))
-    })
-    .join()
-    .unwrap_or_else(|_| Err("selection thread died".to_string()))
+    let mut rng = ScriptedRng { inner: Rng::new(rng_seed), mode, draws: 0 };
+    let (p, l, d, s): (HashSet<_>, HashSet<_>, HashSet<_>, HashSet<_>) =
+        (peers.iter().copied().collect(), live.iter().copied().collect(), dead.iter().copied().collect(), seeds.iter().copied().collect());
+    guarded(|| chitchat::verif::select_nodes_for_gossip(&mut rng, p, l, d, s))
 }
 
 /// The C17 statement as a predicate on one call.
